@@ -170,6 +170,17 @@ class Conc:
         size = 'width="2" height="2"' if n["lit"] else 'wh="2"'
         return f'<rect {base} xy="{X} 0" {size} data-v="-"/>{nl}'
 
+    def seq(self, nodes):
+        """a list of siblings; remembers the shape written just before each node ("^")"""
+        out = []
+        prev = None
+        for c in nodes:
+            self._prev_shape = prev
+            out.append(self.node(c))
+            prev = c["id"] if (c["k"] == "leaf" and not c["href"]) else None
+        self._prev_shape = None
+        return "".join(out)
+
     def node(self, n):
         k = n["k"]
         i = n["id"]
@@ -198,7 +209,7 @@ class Conc:
             if n["content"]:
                 return f'<rect {" ".join(a)}>t{i}</rect>{nl}'
             return f'<rect {" ".join(a)}/>{nl}'
-        kids = "".join(self.node(c) for c in n["ch"])
+        kids = self.seq(n["ch"])
         if k == "g":
             a = [f'id="n{i}"'] if not n["href"] else [f'id="r{n["href"]}"', (f'class="rc{n["href"]} n{i}"' if n["href"] % 2 == 0 else f'class="n{i}"')]
             a += [f'{x}="{("x" * v) if self.strmode else v}"' for x, v in n["loc"]]
@@ -234,7 +245,10 @@ class Conc:
                     a.append('idx-var="unusedidx"')
                 return f'<for {" ".join(a)}>{self.lead}{kids}</for>{nl}'
             if n["form"] == "count":
-                a = [f'count="{n["cnt"]}"']
+                if n["cond"]["t"] == "var":
+                    a = [self.rnd.choice([f'count="${n["cond"]["x"]}"', f'count="{{{{${n["cond"]["x"]}}}}}"'])]
+                else:
+                    a = [f'count="{n["cnt"]}"']
                 if n["lv"] != "-":
                     a.append(f'loop-var="{n["lv"]}"')
                     if n["start"] != 0 or self.rnd.random() < 0.5:
@@ -245,7 +259,9 @@ class Conc:
                 a = [f'{n["form"]}="{expr_str(n["cond"], False)}"']
             return f'<loop {" ".join(a)}>{self.lead}{kids}</loop>{nl}'
         if k == "reuse":
-            a = [f'id="r{i}"', f'href="#n{n["href"]}"'] + [f'{x}="{v}"' for x, v in n["loc"]]
+            # the target may be named as "the previous element" when it is just that
+            by_prev = getattr(self, "_prev_shape", None) == n["href"] and self.rnd.random() < 0.5
+            a = [f'id="r{i}"', 'href="^"' if by_prev else f'href="#n{n["href"]}"'] + [f'{x}="{v}"' for x, v in n["loc"]]
             if n["ref"] > 0:
                 a.append(f'xy="#n{n["ref"]}|h 1"')
             if i % 2 == 0:
@@ -264,7 +280,7 @@ class Conc:
 
     def xml(self, doc=None):
         doc = self.rec["doc"] if doc is None else doc
-        body = "".join(self.node(n) for n in doc)
+        body = self.seq(doc)
         if self.wrap:
             return f"<svg>{self.lead}{body}</svg>"
         return body
